@@ -171,6 +171,12 @@ func (w *World) Exec(line string) (obs string) {
 		return w.opAcct(args)
 	case "selfmeta":
 		return w.opSelfMeta(args)
+	case "aliasing":
+		if len(args) != 1 || (args[0] != "on" && args[0] != "off") {
+			return obsBadOp
+		}
+		w.tr.alias = args[0] == "on"
+		return "aliasing ok"
 	case "epoch":
 		return w.opEpoch(args)
 	case "gasmap":
